@@ -132,8 +132,10 @@ def native(rp, keep=None):
         flags = ['-std=c++17', '-O1', '-g', '-fsanitize=undefined,address', '-fno-sanitize-recover=all',
                  '-I' + os.path.join(REPO, 'fixed_lib', 'include'), '-I' + os.path.join(REPO, 'fixed_lib', 'src'),
                  '-I' + os.path.join(VERIF, 'spec'), '-Wno-deprecated-declarations']
-        if rp.get('cfg', 'abacus') == 'abacus':
+        if rp.get('cfg', 'abacus') in ('abacus', 'portable'):
             flags.append('-DFIXEDMATH_ENABLE_SQRT_ABACUS_ALGO')
+        if rp.get('cfg') == 'portable':
+            flags.append('-DFIXEDMATH_VERIF_PORTABLE_MULTIPLY')
         cmd = ['g++'] + flags + [src, os.path.join(VERIF, 'spec', 'native_lib.cc'), '-o', exe]
         r = subprocess.run(cmd, capture_output=True, text=True, timeout=300)
         if r.returncode != 0:
